@@ -21,18 +21,43 @@ var CollateFuncs = map[string]func(string, string) int{
 			strings.TrimRight(b, " "),
 		)
 	},
-	"nocase": func(a, b string) int {
-		lc := func(r rune) rune {
-			if r >= 'A' && r <= 'Z' {
-				return rune(strings.ToLower(string(r))[0])
-			}
-			return r
+	"nocase": nocaseCompare,
+}
+
+// nocaseCompare is SQLite's NOCASE: the bytes are compared with A-Z folded to
+// a-z, up to the end of the shorter text or up to a NUL byte in both
+// (sqlite3StrNICmp stops there); if that does not decide, the longer text is
+// the greater.
+func nocaseCompare(a, b string) int {
+	lc := func(c byte) byte {
+		if c >= 'A' && c <= 'Z' {
+			return c + 'a' - 'A'
 		}
-		return strings.Compare(
-			strings.Map(lc, a),
-			strings.Map(lc, b),
-		)
-	},
+		return c
+	}
+	n := len(a)
+	if len(b) < n {
+		n = len(b)
+	}
+	for i := 0; i < n; i++ {
+		ca, cb := lc(a[i]), lc(b[i])
+		if ca != cb {
+			if ca < cb {
+				return -1
+			}
+			return 1
+		}
+		if ca == 0 {
+			break
+		}
+	}
+	switch {
+	case len(a) < len(b):
+		return -1
+	case len(a) > len(b):
+		return 1
+	}
+	return 0
 }
 
 type Key []KeyCol
